@@ -52,8 +52,9 @@ def fam(origin):
             f["decimal_places"] = [("decimal_places", str(i)) for i in (0, 1, 2, 3)]
         f["length"] = [("length", "2"), ("max_length", "2"), ("min_length", "2"), ("max_length", "3")]
         f["regex"] = [("regex", "'-?[0-9]+'"), ("regex", "'[0-9]{2}'"), ("regex", "'1.*'")]
-        c = {"int": ["0", "1", "1.0", "Decimal('1')", "-1"],
-             "float": ["0", "1", "1.0", "0.5", "Decimal('1')", "-0.0"],
+        # constants whose type is a *subclass* of the value's type (True, MyInt(1)) must not accept the plain value
+        c = {"int": ["0", "1", "1.0", "Decimal('1')", "-1", "True", "False", "MyInt(1)", "Num.ONE"],
+             "float": ["0", "1", "1.0", "0.5", "Decimal('1')", "-0.0", "True"],
              "Decimal": ["Decimal('1')", "1", "1.0", "Decimal('1.0')", "Decimal('0')"]}[origin]
         f["const"] = [("const", x) for x in c]
         e = {"int": ["[1, 2, 3]", "[0]", "(1, 7)", "{1.0, 5}"], "float": ["[float('inf'), float('-inf')]", "[0.5, 1]"],
@@ -65,7 +66,7 @@ def fam(origin):
         f["max_length"] = [("max_length", str(i)) for i in (1, 2, 3)]
         if origin == "str":
             f["regex"] = [("regex", r) for r in ("'a+'", "'[0-9]{2}'", "'a|ab'", "'(a|b)*'", "''", "'a'", "'.'", "'^a$'")]
-            f["const"] = [("const", x) for x in ("'a'", "'ab'", "''", "'1'")]
+            f["const"] = [("const", x) for x in ("'a'", "'ab'", "''", "'1'", "MyStr('a')", "Color.RED")]
             f["enum"] = [("enum", x) for x in ("['a', 'b']", "['', '1']", "('ab',)")]
         else:
             f["const"] = [("const", "b'a'")]
